@@ -85,6 +85,21 @@ func TestGovcHarness_IgnoredFieldsGenerators(t *testing.T) {
 		"A int",
 		"A int `json:\"a\"`\nB string `json:\",omitempty\"`",
 	}
+	// the key of encoding/json reaches every output unchanged, punctuation included
+	keyed := govcC09Outputs(t, "CT string `json:\"content-type\"`\nAL int `json:\"accept.lang,omitempty\"`")
+	for target, wants := range map[string][]string{
+		"typescript":     {"content-type:", "accept.lang:"},
+		"dart":           {"json['content-type']", "json['accept.lang']"},
+		"sql-validators": {"'content-type'", "'accept.lang'"},
+	} {
+		for _, w := range wants {
+			cases++
+			if !strings.Contains(keyed[target], w) {
+				fmt.Printf("GOVC-FAIL {\"target\":%q,\"key\":%q}\n", target, w)
+				t.Errorf("%s: the key %s of encoding/json does not appear in the output:\n%s", target, w, keyed[target])
+			}
+		}
+	}
 	for bi, base := range bases {
 		ref := govcC09Outputs(t, base)
 		if bi > 0 && !strings.Contains(ref["sql-validators"], "'A'") && !strings.Contains(ref["sql-validators"], "'a'") {
